@@ -11,7 +11,7 @@ EXPLANATION = (
     "ordered list of reads from the byte iterator (width, result fields that originate from the read); per codec "
     "(IPv4, UDP, TCP, ARP, DNS, DHCP) both lists must denote the same byte map (same offsets, widths and fields, "
     "variable-length regions with the same delimiter / count field), and for IPv4/UDP/TCP/ARP the map must equal the "
-    "frozen RFC 791 / 768 / 9293 / 826 table. (W-NOTRUNC) narrowing integer casts on the encode path are listed and "
+    "frozen RFC 791 / 768 / 9293 / 826 table. (W-PURE) for the loop-free decoders (IPv4, UDP, TCP, ARP), reduced to formulas, every field of an accepted header is a fixed projection of the bytes read - never replaced or normalised depending on other fields; (W-NOTRUNC) narrowing integer casts on the encode path are listed and "
     "must be range-safe or tabled. Catches swapped, missing, duplicated or mis-sized fields, a field decoded into the "
     "wrong member, a dropped delimiter. Not decided: bit packing inside a position, value round-trip, equality with an "
     "independent implementation (value-level).")
@@ -329,6 +329,57 @@ def run(ctx):
                 probs.append("the re-encoded header takes %s from %s instead of the decoded header's %s" % (f, S.term_str(x), f))
     (ctx.bad if probs else ctx.ok)("W-LAYOUT", "W-LAYOUT:ipv4:serialize", ser.span, "; ".join(probs) if probs else "Ipv4Header::serialize hands every header field to the builder field of the same name")
     ctx.extra["layouts"] = samples
+
+    # ---------------------------------------------------------------- W-PURE
+    # decoding is a projection of the bytes: no field of an accepted header is replaced or normalised depending on
+    # other fields (such a decoder is not injective on the bytes it accepts, so re-encoding cannot reproduce them)
+    from .. import symx as S
+    for adt_s, owner, fn in (("ipv4_parsing::Ipv4Header", "Ipv4Header", "from_bytes"), ("udp_parsing::UdpHeader", "UdpHeader", "from_bytes_ipv4"),
+                             ("tcp_parsing::TcpHeader", "TcpHeader", "from_bytes"), ("arp_parsing::ArpPacket", "ArpPacket", "from_bytes")):
+        db = prog.method(owner, fn)
+        key = "W-PURE:%s::%s" % (owner, fn)
+        try:
+            ex = S.Extractor(prog, (), effects=True, max_nodes=80000)
+            t = ex.run(db, S.params_of(db))
+        except S.Unsupported as e:
+            ctx.require(False, "W-PURE: %s::%s can no longer be reduced to a formula (%s)" % (owner, fn, e))
+        adt = prog.adt(adt_s)
+        names = [f["name"] for f in adt["variants"][0]["fields"]]
+        paths = S.ok_paths(t, lambda x: x[0] == "agg" and x[1].endswith("Result::Ok") and len(x[2]) == 1 and x[2][0][0] == "agg" and len(x[2][0][2]) == len(names))
+        ctx.require(len(paths) >= 1, "W-PURE: no Ok(%s{..}) result found in %s" % (owner, fn))
+        probs = []
+        for conds, leaf in paths:
+            for n, v in zip(names, leaf[2][0][2]):
+                cond = S.atoms(v, lambda x: x[0] in ("ite", "switch"))
+                if cond:
+                    c = cond[0]
+                    probs.append("field `%s` of the decoded header is %s: it is replaced depending on %s, so the decoded value is not what the bytes at its position say and re-encoding does not reproduce them" % (
+                        n, S.term_str(c)[:60] + ("..." if len(S.term_str(c)) > 60 else ""), S.term_str(c[1])[-70:]))
+        # the same across accepting paths: a field may vary from path to path only with conditions on bytes that no
+        # other field is decoded from (a `match` on the field's own bytes, e.g. the ARP operation code)
+        is_read = lambda x: x[0] == "field" and x[2] == "0" and x[1][0] == "downcast"
+        for i, n in enumerate(names):
+            terms = {}
+            for conds, leaf in paths:
+                terms.setdefault(leaf[2][0][2][i], []).append(conds)
+            if len(terms) <= 1:
+                continue
+            other_reads = set()
+            for conds, leaf in paths:
+                for j, v in enumerate(leaf[2][0][2]):
+                    if j != i:
+                        other_reads |= set(S.atoms(v, is_read))
+            all_conds = [set((c, repr(o)) for c, o in conds) for cl in terms.values() for conds in cl]
+            common = set.intersection(*all_conds)
+            for cs_ in all_conds:
+                for c, o in cs_ - common:
+                    used = [a for a in S.atoms(c, is_read) if a in other_reads]
+                    if used:
+                        probs.append("field `%s` of the decoded header takes different values (%s) depending on %s, i.e. on bytes that belong to another field: the decoder normalises instead of projecting, and re-encoding does not reproduce the bytes it accepted" % (
+                            n, " / ".join(sorted(S.term_str(x)[-40:] for x in terms)), S.term_str(c)[-80:]))
+        probs = sorted(set(probs))
+        (ctx.bad if probs else ctx.ok)("W-PURE", key, db.span, "; ".join(probs[:3]) if probs else
+            "every field of the accepted header is a fixed projection (cast / shift / mask / conversion) of the bytes read at its position (%d accepting path(s), %d fields)" % (len(paths), len(names)))
 
     # ---------------------------------------------------------------- W-NOTRUNC
     from .. import panics
